@@ -220,6 +220,7 @@ def gen_tree_case(rng, prof: dict | None = None) -> dict:
         stacks = [(gen_stack(rng, allow_cutoff) if p.get("stacks", True) else []) for _ in range(n_levels)]
     lsc_kinds = p.get("lscs")
     levels = []
+    tiny_leaf = n_levels >= 2 and engines[-1] in SEA_FAMILY and rng.random() < p.get("tiny_leaf_p", 0.06)
     for li, e in enumerate(engines):
         lsc = gen_lsc(rng, kinds=lsc_kinds)
         if li == 0 and p.get("root_lsc"):
@@ -227,6 +228,10 @@ def gen_tree_case(rng, prof: dict | None = None) -> dict:
         levels.append(
             gen_level(rng, e, bounds, lsc=lsc, stack=stacks[li], max_pop=p.get("max_pop", 24), max_gens=p.get("max_gens", 4))
         )
+    if tiny_leaf:
+        # a (1+1)-style leaf: population of 1-3 individuals (legal for the SEA family)
+        levels[-1]["pop"] = rng.choice([1, 1, 2, 3])
+        levels[-1]["k_elites"] = min(levels[-1].get("k_elites", 1), levels[-1]["pop"])
     gsc = gen_gsc(rng, kind=p.get("gsc"), kinds=p.get("gscs"))
     # keep the run able to finish: a budget-type GSC needs a root that keeps running, a "stopped"-type GSC
     # needs local stop conditions that do stop (anything else ends in the harness' idle watchdog)
